@@ -46,14 +46,14 @@ FILES = {
 
 # second pass (--recheck): the remaining properties, most plausible first
 EXT = {
-    "canopen/sdo/client.py": ["C03", "C20", "C09", "C02"],
-    "canopen/sdo/server.py": ["C03", "C17", "C11", "C01"],
-    "canopen/sdo/base.py": ["C06", "C02", "C13", "C20", "C09", "C19", "C07"],
-    "canopen/node/local.py": ["C03", "C15", "C16", "C17", "C11"],
-    "canopen/node/remote.py": ["C15", "C17", "C19", "C11", "C16", "C01"],
-    "canopen/variable.py": ["C05", "C15", "C04", "C19", "C01"],
-    "canopen/objectdictionary/__init__.py": ["C01", "C02", "C03", "C05", "C06", "C09"],
-    "canopen/objectdictionary/datatypes.py": ["C20", "C05", "C01", "C02"],
+    "canopen/sdo/client.py": ["C03", "C20", "C09", "C19", "C15"],
+    "canopen/sdo/server.py": ["C03", "C15", "C17", "C20"],
+    "canopen/sdo/base.py": ["C06", "C02", "C13", "C20", "C09", "C19", "C07", "C15"],
+    "canopen/node/local.py": ["C03", "C15", "C17", "C11", "C16", "C20"],
+    "canopen/node/remote.py": ["C15", "C17", "C19", "C11", "C16", "C01", "C20"],
+    "canopen/variable.py": ["C05", "C15", "C19", "C01", "C09", "C04"],
+    "canopen/objectdictionary/__init__.py": ["C01", "C02", "C03", "C05", "C06", "C09", "C15", "C19"],
+    "canopen/objectdictionary/datatypes.py": ["C20", "C05", "C01", "C02", "C15"],
     "canopen/objectdictionary/eds.py": ["C02", "C09", "C03"],
     "canopen/pdo/base.py": ["C19", "C20", "C10"],
     "canopen/pdo/__init__.py": ["C05", "C19"],
@@ -219,6 +219,7 @@ def main():
     ap.add_argument("--max", type=int, default=None)
     ap.add_argument("--out", default="/verif/.work/mutants.jsonl")
     ap.add_argument("--kinds", default=None)
+    ap.add_argument("--all", action="store_true", help="with --recheck: every property, not only the plausible ones")
     ap.add_argument("--recheck", default=None, help="survivors of an earlier run: try every other property")
     args = ap.parse_args()
     files = args.files.split(",") if args.files else list(FILES)
@@ -236,7 +237,9 @@ def main():
                 continue
             done = m.get("ran") or FILES[m["file"]]
             first = [p for p in EXT.get(m["file"], []) if p not in done]
-            m["props"] = first + [p for p in ALL if p not in done and p not in first]
+            m["props"] = first + ([p for p in ALL if p not in done and p not in first] if args.all else [])
+            if not m["props"]:
+                continue
             m["ran"] = list(done)
             muts.append(m)
     if args.max:
